@@ -26,6 +26,7 @@ import (
 	"github.com/nuts-foundation/go-did/did"
 	"github.com/nuts-foundation/go-stoabs"
 	"github.com/nuts-foundation/nuts-node/crypto/hash"
+	"sort"
 )
 
 func writeEventList(tx stoabs.WriteTx, newEventList eventList, id did.DID) error {
@@ -251,8 +252,15 @@ outer:
 		return newDoc, newMeta, nil
 	}
 
-	txRefReader := tx.GetShelfReader(transactionIndexShelf)
+	// iterate in a fixed order: map iteration order would make SourceTransactions (and the merge order) differ per node/run
+	unconsumedKeys := make([]string, 0, len(unconsumed))
 	for k := range unconsumed {
+		unconsumedKeys = append(unconsumedKeys, k)
+	}
+	sort.Strings(unconsumedKeys)
+
+	txRefReader := tx.GetShelfReader(transactionIndexShelf)
+	for _, k := range unconsumedKeys {
 		st, _ := hash.ParseHex(k)
 		newMeta.SourceTransactions = append(newMeta.SourceTransactions, st)
 		// get old doc by txRef ...
